@@ -412,8 +412,26 @@ func run(c *engine.Ctx) {
 			report("module m{namespace u;prefix p;" + strings.Replace(frame, "ARG", "\""+v+"\"", 1) + "}")
 		}
 	}
+	// E: every keyword the parser knows (RFC 6020 and the configd / opd extension sets), with and
+	// without argument and block, at module level, below a container, below a type and inside itself
+	for ki, kw := range allKeywords {
+		for fi, frame := range []string{"KW \"x\";", "KW \"x\" { }", "KW;", "KW { }", "KW x { KW y; }", "container c { KW \"x\"; }", "leaf l { type string { KW \"x\"; } }", "KW \"x\" { description d; KW2 z; }", "KW 1 { KW2 \"2\" { KW 3; } }"} {
+			id := fmt.Sprintf("keyword:%d:%d", ki, fi)
+			if !c.Owns(id) || !c.Case(id) {
+				continue
+			}
+			c.Add("states", 1)
+			c.Add("transitions", 1)
+			kw2 := allKeywords[(ki+1)%len(allKeywords)]
+			report("module m{namespace u;prefix p;" + strings.ReplaceAll(strings.ReplaceAll(frame, "KW2", kw2), "KW", kw) + "}")
+		}
+	}
 	c.Sample(map[string]any{"text": corpus[1][:40], "kind": "corpus prefix"})
 }
+
+var allKeywords = strings.Fields("module import include revision submodule belongs-to typedef type container must leaf leaf-list list choice case anyxml grouping uses rpc input output notification augment identity extension argument feature deviation deviate range length pattern enum bit contact description namespace organization prefix reference yang-version revision-date default status units path require-instance config if-feature presence when error-app-tag error-message mandatory min-elements max-elements ordered-by key unique refine base yin-element value position fraction-digits " +
+	"configd:help configd:validate configd:normalize configd:syntax configd:priority configd:allowed configd:begin configd:end configd:create configd:delete configd:update configd:subst configd:secret configd:error-message configd:pattern-help configd:call-rpc configd:get-state configd:defer-actions configd:must " +
+	"opd:argument opd:augment opd:command opd:option opd:on-enter opd:inherit opd:repeatable opd:pass-opc-args opd:privileged opd:local opd:secret opd:help opd:allowed opd:pattern-help p:ext q:unknown unknown")
 
 var typedArgFrames = []string{
 	"revision ARG;", "import o{prefix o;revision-date ARG;}", "typedef t{type enumeration{enum e{value ARG;}}}", "typedef t{type bits{bit b{position ARG;}}}",
